@@ -108,7 +108,12 @@ class Client(threading.Thread):
                 v = self.token if not got else "foreign-or-lost-id:" + ";".join(got)
                 self.out.update(status="ok", result=v)
                 return
-            if self.kind == "call":
+            if self.kind == "surrogate":
+                # a text that is not valid UTF-8 once decoded (a file name read with surrogateescape, say) is still echoed
+                odd = self.token + "\udc80\ud83d"
+                v = p.echo2(self.token, odd)
+                v = self.token if v == odd else "surrogate-mangled:%r" % (v,)
+            elif self.kind == "call":
                 v = p.echo(self.token)
             elif self.kind == "slow":
                 v = p.slow(self.token)
@@ -151,6 +156,10 @@ def run_word(word, cls, transport, poolcfg, rnd, rundir, counter, plan=None):
         count(tok)
         return tok
 
+    def echo2(tok, text):
+        count(tok)
+        return text
+
     def slow(tok):
         count(tok)
         time.sleep(0.03)
@@ -192,7 +201,7 @@ def run_word(word, cls, transport, poolcfg, rnd, rundir, counter, plan=None):
         srv = PooledJSONRPCServer(addr, **kw)
     else:
         srv = SimpleJSONRPCServer(addr, **kw)
-    for fn, name in ((echo, "echo"), (slow, "slow"), (note, "note"), (boom, "boom"), (boomhard, "boomhard"), (restricted, "restricted")):
+    for fn, name in ((echo, "echo"), (echo2, "echo2"), (slow, "slow"), (note, "note"), (boom, "boom"), (boomhard, "boomhard"), (restricted, "restricted")):
         srv.register_function(fn, name)
     accepted = [0]
     orig_pr = srv.process_request
@@ -212,7 +221,7 @@ def run_word(word, cls, transport, poolcfg, rnd, rundir, counter, plan=None):
             calls.append({"op": "S", "returned": True, "secs": 0.0, "exc": ""})
         elif op == "R":
             batch = []
-            kinds = plan_in.pop(0) if plan_in else [[rnd.choice(["call", "call", "slow", "notify", "batch", "invalid", "fail", "truncated", "failhard", "rawid"]),
+            kinds = plan_in.pop(0) if plan_in else [[rnd.choice(["call", "call", "slow", "notify", "batch", "invalid", "fail", "truncated", "failhard", "rawid", "surrogate"]),
                                                     rnd.choice([1.0, 2.0])] for _ in range(rnd.randint(1, 5))]
             plan_out.append(kinds)
             for kind, ver in kinds:
@@ -298,6 +307,10 @@ if __name__ == "__main__":
     resource.setrlimit(resource.RLIMIT_AS, (3 << 30, 3 << 30))
     words = json.load(open(sys.argv[2]))
     out, seed, rundir = sys.argv[3], int(sys.argv[4]), sys.argv[5]
+    # an unrelated pool of the application lives in the same process all along (resident idle workers): stopping a server
+    # concerns the pool of that server only
+    bystander = jsonrpclib.threadpool.ThreadPool(2, 2, logname="bystander")
+    bystander.start()
     rnd = random.Random(seed)
     counter = [seed * 100000]
     recs = []
